@@ -29,7 +29,7 @@ fn build(u: &mut Unstructured) -> arbitrary::Result<Case> {
     o.inmemory = bool::arbitrary(u)?;
     o.threads = 0;
     o.zoom = if bool::arbitrary(u)? { ZoomSpec::Manual(vec![8, 64]) } else { ZoomSpec::Auto { initial: 10, max: 4 } };
-    Ok(Case { input: BwInput { chroms, unused: vec![] }, opts: o, k1_nudged: 0 })
+    Ok(Case { input: BwInput { chroms, unused: vec![] }, opts: o, k1_nudged: 0, delay: None })
 }
 
 fuzz_target!(|data: &[u8]| {
